@@ -46,7 +46,7 @@ def _analyses():
     from .analyses import a16_perm
     from .analyses import a17_labels
     from .analyses import a4_kind as a4
-    from .analyses import a5_factor, a5_linear, a7_axis, a8_taint
+    from .analyses import a5_factor, a5_linear, a7_axis, a7_order, a8_taint
     from .analyses import kernel_api as ka
     from .analyses import kernel_core as kc
     from .analyses import kernel_trace as kt
@@ -54,25 +54,27 @@ def _analyses():
 
     vjp_axis = lambda c, w: a7_axis.hazards(c, w, modes=("vjp",))
     jvp_axis = lambda c, w: a7_axis.hazards(c, w, modes=("jvp",))
+    vjp_order = lambda c, w: a7_order.layout_options(c, w, modes=("vjp",))
+    jvp_order = lambda c, w: a7_order.layout_options(c, w, modes=("jvp",))
     thread = lambda c, w: kt.global_effects(c, w, thread=True)
     return {
         "C01": (
-            [a3.vjp, a3.helpers, a3_reduce.reductions, km.squeeze_axes, a16_perm.permutations_rule, a16_perm.norm_rolls, a17_labels.contraction_adjoints, vjp_axis, a2.catchall, a2.variadic, a2.argnums_rules, a1.arity, ka.option_domains, a5_factor.agree, ka.arraybox_table],
+            [a3.vjp, a3.helpers, a3_reduce.reductions, km.squeeze_axes, a16_perm.permutations_rule, a16_perm.norm_rolls, a17_labels.contraction_adjoints, vjp_axis, vjp_order, a2.catchall, a2.variadic, a2.argnums_rules, a1.arity, ka.option_domains, a5_factor.agree, ka.arraybox_table, kc.inplace_sites],
             "Reverse-mode exactness is numerical; decided here are the configuration-dependent plumbing clauses every exact rule needs: "
-            "broadcast discipline of VJPs (A3.vjp), negative-axis hazards (A7), keyword/positional binding behind catch-alls (A2.catchall), "
+            "broadcast discipline of VJPs (A3.vjp), negative-axis hazards (A7), layout-relative `order` values never forwarded to the cotangent (A7.order), keyword/positional binding behind catch-alls (A2.catchall), "
             "variadic offsets (A2.variadic), whole-argnums rules map element-wise (A2.argnums), arity (A1.arity), closed option domains (A6.enum), VJP/JVP factor agreement of elementwise rules (A5) "
-            "and the operator/method call forms (A14). Each is a necessary condition: breaking one makes some call configuration silently wrong.",
+            "and the operator/method call forms (A14); no rule writes in place to its cotangent, its arguments or the answer (A9.inplace: every other rule that reads the same array would see the changed values). Each is a necessary condition: breaking one makes some call configuration silently wrong.",
         ),
         "C02": (
-            [a1.lin, a3.jvp, a3.helpers, a3_reduce.reductions, a16_perm.norm_rolls, ka.sibling_guards, jvp_axis, a2.catchall, a1.arity, kc.zero_paths, a5_factor.agree],
+            [a1.lin, a3.jvp, a3.helpers, a3_reduce.reductions, a16_perm.norm_rolls, ka.sibling_guards, jvp_axis, jvp_order, a2.catchall, a1.arity, kc.zero_paths, a5_factor.agree, kc.inplace_sites],
             "Forward-mode: 'same'/def_linear only on linear (function, argument) pairs (A1.lin: exactly when the primitive applied to the tangent IS the JVP), "
-            "output-shaped tangents of broadcasting JVPs (A3.jvp), guard agreement with the VJP twin (A6.sibling), axis hazards (A7) and binding (A2) of JVP makers, "
-            "(value, tangent) order and zero tangents of the right space (A13.zero/A2.tuple), VJP/JVP factor agreement of elementwise rules (A5).",
+            "output-shaped tangents of broadcasting JVPs (A3.jvp), guard agreement with the VJP twin (A6.sibling), axis hazards (A7), layout-relative `order` values (A7.order) and binding (A2) of JVP makers, "
+            "(value, tangent) order and zero tangents of the right space (A13.zero/A2.tuple), VJP/JVP factor agreement of elementwise rules (A5); no JVP rule writes in place to the tangent, the arguments or the answer it is given (A9.inplace: the tangent stored on the parent node is read again by every later consumer).",
         ),
         "C03": (
-            [kc.backward_pass, km.toposort, kc.dispatch, kt.wrapper, kc.raise_discipline, ka.arraybox_table, kc.ownership, km.container_vspaces],
+            [kc.backward_pass, km.toposort, kc.dispatch, kt.wrapper, kc.raise_discipline, ka.arraybox_table, kc.ownership, km.container_vspaces, kc.inplace_sites],
             "Chain rule over arbitrary graphs: path property of one backward_pass iteration (node.vjp exactly once, one add_outgrads per parent edge keyed by that parent, "
-            "accumulating into the current entry), the accumulation itself (add_outgrads ownership typestate A9.proto; container spaces delegate _add/_mut_add to the same-named child operation and keep the result, A14.vspace), alignment of parents/argnums/rules in the wrapper and in all dispatch branches (A13.align), node constructor slots (A2.slot).",
+            "accumulating into the current entry), the accumulation itself (add_outgrads ownership typestate A9.proto; container spaces delegate _add/_mut_add to the same-named child operation and keep the result, A14.vspace), alignment of parents/argnums/rules in the wrapper and in all dispatch branches (A13.align), node constructor slots (A2.slot); a cotangent fans out to several rules unchanged because no rule writes to borrowed memory (A9.inplace).",
         ),
         "C04": (
             [a5_factor.agree, a5_linear.closures_linear, a1.lin, a3.vjp, a3.jvp, a17_labels.contraction_adjoints],
@@ -91,7 +93,7 @@ def _analyses():
             "parameter names, positions and defaults (A6.wrapsig); no in-place write to a parameter (A9.inplace).",
         ),
         "C07": (
-            [a8_taint.traceable, a1.helpers, kc.closure_reuse, a5_factor.agree, a5_linear.closures_linear, kt.trace_fn, kt.wrapper, kt.find_top, kt.new_trace],
+            [a8_taint.traceable, a1.helpers, kc.closure_reuse, a5_factor.agree, a5_linear.closures_linear, kt.trace_fn, kt.wrapper, kt.notrace_wrapper, kt.find_top, kt.new_trace],
             "Closure under differentiation: no raw numpy call on a possibly traced operand inside a non-primitive rule body (A8), every helper primitive used at backward time "
             "has its own VJP and VSpace arithmetic has both rules (A1.helpers), backward closures are re-usable (A10), no rule selects on the raw value of its (co)tangent unless the shortcut is disabled for traced (co)tangents (A5.lin/A5.cut).",
         ),
@@ -116,9 +118,9 @@ def _analyses():
             "indices accumulate (A9.scatter), __getitem__/untake pairing on the same index and the argument's space (A2.repo), both sparse object types registered (A1.types), 'same' JVPs (A1.lin).",
         ),
         "C12": (
-            [a2.layout, a2.variadic, a2.argnums_rules, _dict_keys, ka.container_boxes, km.container_vspaces, _container_spaces, _flatten_order],
+            [a2.layout, a2.variadic, a2.argnums_rules, _dict_keys, ka.container_boxes, km.container_vspaces, _container_spaces, _flatten_order, a7_order.layout_constants],
             "Containers: offset arithmetic of sequence_extend / make_sequence (A2.layout, A2.variadic, A2.argnums), content accessors of SequenceBox/DictBox go through the primitive (A14.containers), "
-            "every registered container space resolves its abstract members, flatten destructures make_vjp as (unflatten, flat) and visits dict keys in sorted order.",
+            "every registered container space resolves its abstract members, flatten destructures make_vjp as (unflatten, flat) and visits dict keys in sorted order; no ravel/reshape/flatten call in the library asks for a layout-relative element order (A7.order, call-site clause).",
         ),
         "C13": (
             [a1.types, _vspace_members, a4.vspace, km.container_vspaces, km.layout_independence, kc.purity, kc.ownership],
